@@ -152,6 +152,12 @@ func waitList(c *vf.Ctx) []waitCfg {
 	for _, n := range []string{"stale-true-callback", "stale-true-hook", "signal-after-park", "push-beats-condition"} {
 		l = append(l, waitCfg{Kind: "special:" + n, Seed: c.Seed})
 	}
+	for i := 0; i < 4; i++ {
+		l = append(l, waitCfg{Kind: "special:chain-stack-held", Seed: c.Seed, Idx: i})
+	}
+	for i := 0; i < 2; i++ {
+		l = append(l, waitCfg{Kind: "special:chain-stack-bfirst", Seed: c.Seed, Idx: i}, waitCfg{Kind: "special:chain-counter", Seed: c.Seed, Idx: i})
+	}
 	for _, n := range notHeldNames {
 		l = append(l, waitCfg{Kind: "notheld:" + n, Seed: c.Seed})
 	}
@@ -502,8 +508,8 @@ func run(c *vf.Ctx) {
 			})
 		}
 	}
-	racing(c.Pick(16000, 400000), c.Pick(2000, 10000), false)
-	racing(c.Pick(4000, 80000), c.Pick(1000, 5000), true)
+	racing(c.Pick(24000, 480000), c.Pick(2000, 10000), false)
+	racing(c.Pick(6000, 96000), c.Pick(1000, 5000), true)
 	stress(c.Pick(800, 16000), c.Pick(100, 500), false)
 	stress(c.Pick(240, 4000), c.Pick(40, 250), true)
 	wg.Wait()
@@ -516,14 +522,14 @@ func run(c *vf.Ctx) {
 	c.Require("string_vs_model_checks", c.Pick(20000, 500000))
 	c.Require("waiter_observed_parked", c.Pick(3000, 50000))
 	c.Require("waiter_observed_returned", c.Pick(3000, 50000))
-	c.Require("wait_scenarios:special", 8)
+	c.Require("wait_scenarios:special", 16)
 	c.Require("wait_scenarios:notheld", len(notHeldNames))
 	c.Require("stress_grants_under_contention", c.Pick(20000, 300000))
 	for _, p := range racingPrims {
 		c.Require("racing_rounds:"+p, c.Pick(1500, 30000))
 		c.Require("racing_rounds_with_waiters_on_both_sides:"+p, c.Pick(100, 2000))
 	}
-	c.Require("racing_rounds_race_build", c.Pick(3000, 60000))
+	c.Require("racing_rounds_race_build", c.Pick(4500, 70000))
 	c.Require("racing_rounds_mode:pretrue", c.Pick(1000, 20000))
 	c.Require("racing_rounds_mode:nevertrue", c.Pick(1000, 20000))
 	c.Require("racing_waiters_called_before_change", c.Pick(10000, 200000))
